@@ -230,7 +230,7 @@ def sym_equal(expr_a, expr_b, rng, names, trials=3, digits=30):
         except TypeError:
             return False, float("inf")     # unresolved free symbol on one side
         worst = max(worst, d / scale)
-        if d > 1e-18 * scale:
+        if d > 1e-11 * scale:       # Float coefficients carry 15 digits; a real slip is O(1)
             return False, worst
     return True, worst
 
